@@ -98,23 +98,46 @@ Proof.
         split; [reflexivity|]. split; [exact G'|]. split; [exact S'|]. split; [exact C'|]. congruence.
 Qed.
 
-(* the whole string value: opening quote included *)
+(* the whole string value: opening quote included; the string must fit the builder
+   (at most 65535 bytes, StringNode::maxLength) *)
 Theorem write_then_parse_string : forall cf str tail fuel s,
   decode_unicode cf = true ->
   Forall (fun b => b < 256) str ->
+  str_fits str ->
   good s -> stream s = write_string str ++ tail ->
   (length str < fuel)%nat ->
   exists s', parse_quoted_string cf fuel s = (Ok, str, s') /\
              good s' /\ stream s' = tail /\ cur s' = None /\ found s' = found s.
 Proof.
-  intros cf str tail fuel s DU FA G S L.
+  intros cf str tail fuel s DU FA FIT G S L.
   unfold write_string in S. rewrite <- !app_assoc in S. cbn [app] in S.
   assert (Q : 34 <> 0) by lia.
   destruct (current_cons s 34 _ G S Q) as (s1 & E1 & G1 & S1 & C1 & F1 & _).
   destruct (move_cons _ _ _ G1 C1 S1) as (G2 & S2 & C2 & F2).
   unfold parse_quoted_string. rewrite E1.
   destruct (quoted_roundtrip cf str tail fuel cp_init [] _ DU FA G2 S2 L) as (s' & E' & G' & S' & C' & F').
-  exists s'. rewrite E'. cbn [app].
+  exists s'. rewrite E'. cbn [app]. rewrite (cap_string_fits _ _ FIT).
+  split; [reflexivity|]. split; [exact G'|]. split; [exact S'|]. split; [exact C'|]. congruence.
+Qed.
+
+(* a string that does not fit: the whole text is read, then NoMemory *)
+Theorem write_then_parse_long_string : forall cf str tail fuel s,
+  decode_unicode cf = true ->
+  Forall (fun b => b < 256) str ->
+  max_json_string < N.of_nat (length str) ->
+  good s -> stream s = write_string str ++ tail ->
+  (length str < fuel)%nat ->
+  exists s', parse_quoted_string cf fuel s = (NoMemory, [], s') /\
+             good s' /\ stream s' = tail /\ cur s' = None /\ found s' = found s.
+Proof.
+  intros cf str tail fuel s DU FA LONG G S L.
+  unfold write_string in S. rewrite <- !app_assoc in S. cbn [app] in S.
+  assert (Q : 34 <> 0) by lia.
+  destruct (current_cons s 34 _ G S Q) as (s1 & E1 & G1 & S1 & C1 & F1 & _).
+  destruct (move_cons _ _ _ G1 C1 S1) as (G2 & S2 & C2 & F2).
+  unfold parse_quoted_string. rewrite E1.
+  destruct (quoted_roundtrip cf str tail fuel cp_init [] _ DU FA G2 S2 L) as (s' & E' & G' & S' & C' & F').
+  exists s'. rewrite E'. cbn [app]. rewrite (cap_string_long _ _ LONG).
   split; [reflexivity|]. split; [exact G'|]. split; [exact S'|]. split; [exact C'|]. congruence.
 Qed.
 
